@@ -93,8 +93,12 @@ def run_one(case):
             r = sim.advance(5)  # < T5 (10 s): an active endpoint has not reconnected yet
         if rig.state() != "NOT_CONNECTED":
             return Failure(f"not-disconnected:{_where(case)}", case, f"{rig.state()} {sim.blocked_report()}", "NOT_CONNECTED within 5 s")
-        if len(rig.p._receive_buffer) != 0:
-            return Failure(f"stale-buffer:{_where(case)}", case, len(rig.p._receive_buffer), 0)
+        try:
+            left_over = len(rig.p._receive_buffer)
+        except Exception as exc:  # noqa: BLE001 - a buffer that cannot even say how long it is is not empty
+            left_over = f"len() raises {type(exc).__name__}: {exc}"
+        if left_over != 0:
+            return Failure(f"stale-buffer:{_where(case)}", case, left_over, 0)
         # reconnect
         n_before = len(rig.received)
         if fu == "disable":
